@@ -37,6 +37,9 @@ impl Cfg {
 
 /// Redirect fd 2 to /dev/null (ragc prints unconditional DEBUG lines); returns the saved fd.
 pub fn silence_stderr() -> i32 {
+    if std::env::var("RVX_LOUD_PANICS").is_ok() {
+        return unsafe { libc::dup(2) };
+    }
     unsafe {
         let saved = libc::dup(2);
         let null = libc::open(b"/dev/null\0".as_ptr() as *const libc::c_char, libc::O_WRONLY);
